@@ -125,10 +125,10 @@ ChooseVW == /\ pc = "build" /\ Format = "vw"
 Ready == pc = "row"
 \* ---------------------------------------------------------------- namespace map (vw_namespace_map.csv)
 \* entry kinds: what one line of the map looks like; the k-th line declares id k / feature k
-NsKinds == {"two", "two_underscore", "three_f32", "three_other", "three_empty", "one", "four"}
-Declares(kind) == kind \in {"two", "three_f32", "three_other", "three_empty"}      \* a well-formed declaration
+NsKinds == {"two", "two_underscore", "three_f32", "three_other", "three_empty", "three_f32_underscore", "three_empty_underscore", "one", "four"}
+Declares(kind) == kind \in {"two", "three_f32", "three_other", "three_empty", "three_f32_underscore", "three_empty_underscore"}      \* a well-formed declaration (ids with an underscore need the type field, possibly empty)
 ExpectedMap(es) == {k \in DOMAIN es : Declares(es[k])}                              \* ids mapped to their feature
-ExpectedFloats(es) == {k \in DOMAIN es : es[k] = "three_f32"}
+ExpectedFloats(es) == {k \in DOMAIN es : es[k] \in {"three_f32", "three_f32_underscore"}}
 ChooseMap == /\ pc = "build" /\ Format = "nsmap"
              /\ \E n \in 1..MaxCells : \E es \in [1..n -> NsKinds] : cells' = es
              /\ pc' = "row" /\ UNCHANGED <<vw, wide, nsorder>>
